@@ -59,6 +59,7 @@ func Open(options DBOptions, initCheckpoints []recovery.CheckpointHandle) *DB {
 }
 
 func New(options DBOptions) *DB {
+	verifTuneOptions(&options)
 	// Default size to 64 MB
 	if options.MemTableSize == 0 {
 		options.MemTableSize = 64 * size.MB
@@ -97,6 +98,7 @@ func New(options DBOptions) *DB {
 		LevelSizeMultiplier:         10,
 		TargetTableSize:             int64(options.TargetFileSize),
 	}
+	verifTuneCompactor(compactor)
 
 	db := &DB{
 		mtables: memtable.NewList(&memtable.MemTableOptions{
